@@ -23,7 +23,7 @@ TraceInit ==
   /\ cfg = Traces[tid].cfg
   /\ phase = "idle" /\ ep = 0 /\ bi = 0 /\ vb = 0
   /\ mtrain = Traces[tid].tr0
-  /\ gmode = TRUE /\ ngdepth = 0 /\ amb = TRUE /\ saved = TRUE
+  /\ gmode = TRUE /\ ngdepth = 0 /\ amb = TRUE /\ saved = TRUE /\ nfit = 0
   /\ steps = 0 /\ fwd = FALSE /\ zeroed = FALSE /\ bwdone = FALSE
   /\ pver = 0 /\ sver = 0 /\ hlen = 0
 
@@ -31,7 +31,7 @@ TraceInit ==
 \* steps, enabled only when the next logged event is the call that follows them - so they are bounded by the trace
 Silent(e, A) == l <= Len(Traces[tid].ev) /\ Ev.e = e /\ A /\ UNCHANGED <<tid, l>>
 TraceNext ==
-  \/ Silent("train", EpochBegin) \/ Silent("eval", ValBegin) \/ Silent("eval", TestBegin)
+  \/ Silent("train", EpochBegin) \/ Silent("eval", ValBegin) \/ Silent("eval", TestBegin) \/ Silent("train", FitAgain)
   \/ IsEvent("ambient")   /\ AmbientToggle /\ Logged       \* the harness (as the caller) enters / leaves its own no_grad block
   \/ IsEvent("train")     /\ ModelTrain /\ Logged
   \/ IsEvent("forward")   /\ ((\E b \in BOOLEAN : Forward(b)) \/ ValForward) /\ Logged      \* which one: decided by the specification's phase
